@@ -831,6 +831,16 @@ class RTDCBase(abc.ABC):
                 warnings.warn(f"Encountered unsupported basin "
                               f"format '{bdict['format']}'!")
                 continue
+            if (bdict["type"] in ["internal", "file", "remote"]
+                    and bc[bdict["format"]].basin_type != bdict["type"]):
+                # The basin class is selected via "format". If its storage
+                # type does not match the declared "type", then the checks
+                # below (e.g. no local basins for remote datasets) would
+                # not apply to the class actually instantiated.
+                warnings.warn(
+                    f"Basin format '{bdict['format']}' does not match "
+                    f"basin type '{bdict['type']}'!")
+                continue
             if "key" in bdict and bdict["key"] in self._basins_ignored:
                 warnings.warn(
                     f"Encountered cyclic basin dependency '{bdict['key']}'",
